@@ -102,6 +102,10 @@ func (cj *CookieJar) getCookiesByHost(host string) []*fasthttp.Cookie {
 			i--
 		}
 	}
+	// keep the purged list: the released cookies must not stay referenced by the jar
+	if _, ok := cj.hostCookies[host]; ok {
+		cj.hostCookies[host] = cookies
+	}
 
 	return cookies
 }
